@@ -1407,7 +1407,14 @@ def check_restart(case):
     if sec["prop"] == "ephem-of-yielded-states":
         # the stored points include the node / apside states of the first stream, which sit exactly ON the
         # zero of those quantities (sign of an exact zero is outside the property): watch something else
-        sec_listeners = [x for x in sec_listeners if x["kind"] not in ("node", "apside")] or [dict(kind="light", type="umbra", frame=None)]
+        def sig(x):
+            return (x["kind"], x.get("type"), x.get("anomaly"), x.get("value"))
+
+        watched = {sig(x) for x in case["listeners"]}
+        spare = [dict(kind="light", type="umbra", frame=None), dict(kind="light", type="penumbra", frame=None),
+                 dict(kind="terminator")]
+        sec_listeners = ([x for x in sec_listeners if sig(x) not in watched]
+                         or [x for x in spare if sig(x) not in watched][:1])
     case2 = dict(case, listeners=sec_listeners, n=sec["n"], prop="kepler", offset=0.0)
     specs2, lis2 = make_listeners(case2)
     if sec["reuse_listeners"] and sec["prop"] != "ephem-of-yielded-states":
